@@ -25,6 +25,7 @@ fn get_i128(m: &HashMap<String, String>, k: &str) -> Option<i128> {
 
 mod c01;
 mod c11;
+mod c13;
 mod c14;
 mod c15;
 mod c18;
